@@ -2096,10 +2096,10 @@ def run(ctx):
         for exp in scr:
             probe = exhaustive(runner, exp)
             if exp.label in ("scripted-identity", "scripted-wallet", "scripted-blocks"):
-                fsize_runs(runner, exp, probe, rng, ctx.scale(12, 150))
+                fsize_runs(runner, exp, probe, rng, ctx.scale(10, 150))
         ctx.extra["t_scripted_s"] = round(ctx.elapsed(), 1)
         # generated workloads
-        n_gen = ctx.scale(26, 360)
+        n_gen = ctx.scale(22, 360)
         for i in range(n_gen):
             kind = rng.choice(["identity", "identity", "wallet", "manager"])
             n_ops = rng.choice([3, 6, 10, 16, 24])
